@@ -19,9 +19,9 @@ export const assumptions = [
 const FIELDS = [...DATA_NAMES, 'list', 'arr', 'obj', 'ob', 'flag', 'n', 's']
 const WANT1 = { smap: true, mangled: true, groups: true }
 
-function behaviour(ge, G, main, dataSeed, ops) {
+function behaviour(ge, G, main, dataSeed, ops, propComponents = false) {
   const mk = () => makeData(new Rng(dataSeed), { small: true })
-  const live = instantiate(ge, G, main, mk(), { keepEvents: false })
+  const live = instantiate(ge, G, main, mk(), { keepEvents: false, propComponents })
   if (live.error) return { error: live.error }
   const steps = [snap(ge, live.comp, live.tr, {})]
   for (const o of ops) {
@@ -122,11 +122,11 @@ export function judge(ctx, c, r1, r2plain, r2mangled) {
   for (let di = 0; di < 2; di++) {
     const dataSeed = (c.dataSeed + di * 977) >>> 0
     const ops = c.ops[di]
-    const b0 = behaviour(ge, G0, c.fs.main, dataSeed, ops)
+    const b0 = behaviour(ge, G0, c.fs.main, dataSeed, ops, (c.caseSeed & 1) === 1)
     if (b0.error && !b0.steps) { report.count('original_throws'); continue }
     for (const [variant, G, r2] of [['plain', G1, r2plain], ['mangled', G2, r2mangled]]) {
       if (variant === 'mangled' && c.hasFor) { report.knownHit(...KNOWN_MANGLED); continue }
-      const b = behaviour(ge, G, c.fs.main, dataSeed, ops)
+      const b = behaviour(ge, G, c.fs.main, dataSeed, ops, (c.caseSeed & 1) === 1)
       report.evals()
       if (b.error && !b.steps) { viol(`the ${variant} print throws where the original renders: ${String(b.error.message).slice(0, 160)}`, { variant, printed: Object.fromEntries(c.sources.map(([p]) => [p, r1.files[p]['str_' + variant]])) }); continue }
       const n = Math.min(b0.steps.length, b.steps.length)
